@@ -160,3 +160,72 @@ package kademlia
 //@   ensures kc.max == old(kc.max)
 //@   fnspec fn:
 //@     pure
+
+// ---- enumeration order (C19): the order in which ForEach visits the buckets ----------------------
+// Bucket lz first; then the deeper buckets whose bit of d = locus xor k is 1, by increasing depth;
+// then the deeper buckets whose bit is 0, by decreasing depth; then the shallower buckets by
+// decreasing depth. That this visiting order is the nearest-first order of the entries is the
+// lemma /verif/lemmas/kademlia_bucket_order_32.smt2 (bounded: 32-bit keys).
+
+//@ spec func bitat(s []byte, i int) int = (i < 0 || i/8 >= len(s)) ? 0 : (s[i/8] / pow2(7 - i%8)) % 2
+
+//@ func bitAt
+//@   pure
+//@   ensures ret == bitat(x, i)
+//@
+//@ func (*bucket).forEach
+//@   assumeframe
+//@   requires b != nil
+//@   ensures true
+//@   fnspec fn:
+//@     pure
+//@
+//@ func (*Cache).ForEach
+//@   noframe
+//@   requires inv(kc)
+//@   ghostvar phase = 0 - 1
+//@   ghostvar last = 0 - 1
+//@   ghostvar visited = emptyset(lz)
+//@   ghostvar stopped = false
+//@   ensures [complete] !ghost(stopped) ==> forall j :: 0 <= j && j < len(kc.buckets) ==> has(ghost(visited), j)
+//@   before call (*bucket).forEach#0:
+//@     assert [first] ghost(phase) == 0 - 1
+//@     set phase = 0
+//@     set last = lz
+//@     set visited = add(ghost(visited), lz)
+//@   before call (*bucket).forEach#1:
+//@     assert [nearer] i > lz && bitat(d, i) == 1 && ghost(phase) <= 1 && (ghost(phase) == 1 ==> ghost(last) < i)
+//@     set phase = 1
+//@     set last = i
+//@     set visited = add(ghost(visited), i)
+//@   before call (*bucket).forEach#2:
+//@     assert [farther] i > lz && bitat(d, i) == 0 && ghost(phase) <= 2 && (ghost(phase) == 2 ==> ghost(last) > i)
+//@     set phase = 2
+//@     set last = i
+//@     set visited = add(ghost(visited), i)
+//@   before call (*bucket).forEach#3:
+//@     assert [shallower] i < lz && ghost(phase) <= 3 && (ghost(phase) == 3 ==> ghost(last) > i)
+//@     set phase = 3
+//@     set last = i
+//@     set visited = add(ghost(visited), i)
+//@   after call (*bucket).forEach:
+//@     set stopped = ghost(stopped) || !res0
+//@   fnspec fn:
+//@     pure
+//@   loop 0:
+//@     invariant inv(kc) && kc == old(kc) && lz + 1 <= i && !ghost(stopped)
+//@     invariant lz < len(kc.buckets) ==> has(ghost(visited), lz) && i <= len(kc.buckets)
+//@     invariant ghost(phase) <= 1 && (ghost(phase) == 1 ==> ghost(last) < i)
+//@     invariant forall j :: lz < j && j < i && j < len(kc.buckets) && bitat(d, j) == 1 ==> has(ghost(visited), j)
+//@   loop 1:
+//@     invariant inv(kc) && kc == old(kc) && i <= len(kc.buckets) - 1 && (lz <= i || lz >= len(kc.buckets)) && !ghost(stopped)
+//@     invariant lz < len(kc.buckets) ==> has(ghost(visited), lz)
+//@     invariant ghost(phase) <= 2 && (ghost(phase) == 2 ==> ghost(last) > i)
+//@     invariant forall j :: lz < j && j < len(kc.buckets) && bitat(d, j) == 1 ==> has(ghost(visited), j)
+//@     invariant forall j :: i < j && lz < j && j < len(kc.buckets) && bitat(d, j) == 0 ==> has(ghost(visited), j)
+//@   loop 2:
+//@     invariant inv(kc) && kc == old(kc) && 0 - 1 <= i && i < lz && i < len(kc.buckets) && !ghost(stopped)
+//@     invariant lz < len(kc.buckets) ==> has(ghost(visited), lz)
+//@     invariant ghost(phase) <= 3 && (ghost(phase) == 3 ==> ghost(last) > i)
+//@     invariant forall j :: lz < j && j < len(kc.buckets) ==> has(ghost(visited), j)
+//@     invariant forall j :: i < j && j < lz && j < len(kc.buckets) ==> has(ghost(visited), j)
